@@ -1000,6 +1000,7 @@ func cmdDeterminism(prop string, seed uint64, n uint64, repo string) int {
 		return sigT{l.Status, l.SchedHash, l.Distinct + "/" + l.Digest, strings.Join(ks, ",") + race, l.TapeLen}
 	}
 	var ref []sigT
+	var refLines []resLine
 	bad := 0
 	procs := 0
 	for rep, gmp := range []int{1, 4, 16, 2, 8, 16} {
@@ -1036,6 +1037,7 @@ func cmdDeterminism(prop string, seed uint64, n uint64, repo string) int {
 		}
 		if rep == 0 {
 			ref = sigs
+			refLines = all
 			continue
 		}
 		if len(sigs) != len(ref) {
@@ -1047,6 +1049,10 @@ func cmdDeterminism(prop string, seed uint64, n uint64, repo string) int {
 				bad++
 				if bad <= 5 {
 					fmt.Printf("NONDETERMINISM: run %d differs at GOMAXPROCS=%d workers=%d: %+v vs %+v\n", i, gmp, workers, ref[i], sigs[i])
+					a, _ := json.Marshal(refLines[i].Scenario)
+					b, _ := json.Marshal(all[i].Scenario)
+					os.WriteFile(fmt.Sprintf("/tmp/nondet-%s-%d-a.json", prop, i), a, 0o644)
+					os.WriteFile(fmt.Sprintf("/tmp/nondet-%s-%d-b.json", prop, i), b, 0o644)
 				}
 			}
 		}
